@@ -510,6 +510,7 @@ type Contract struct {
 	Use      map[string][]string // callee name suffix -> labels of the callee's ensures clauses assumed at its calls here (the others are not used: assuming less is sound)
 	Dynamic  map[string]string // parameter of interface type -> concrete type it is verified for (devirtualised method calls)
 	Strings  bool     // use the SMT string theory for Go strings in this function's conditions
+	Function bool     // the result of a call is the uninterpreted function of the arguments that contract expressions denote by writing the call
 	Bytes    bool     // byte-level string model: string (in)equality is extensional over length and bytes
 	Opaque   []string // spec functions treated as uninterpreted in this function's conditions
 	Footprint []*Node // objects whose fields (of the maps in Modifies) may change; all others keep theirs
@@ -972,6 +973,11 @@ func (cs *ContractSet) LoadContractFile(path, pkgPath string) error {
 				return fail(fmt.Errorf("bytes outside func"))
 			}
 			cur.Bytes = true
+		case "function":
+			if cur == nil {
+				return fail(fmt.Errorf("function outside func"))
+			}
+			cur.Function = true
 		case "opaque-default":
 			// applies to every function contract that follows in this file
 			fileOpaque = append(fileOpaque, strings.Fields(strings.ReplaceAll(rest, ",", " "))...)
